@@ -813,6 +813,9 @@ fn do_call<K: TKey>(e: &mut Enr<K>, m: &str, args: &Value, signer: &K) -> Value 
 }
 
 fn do_build<K: TKey>(step: &Value, signer: &K) -> Result<Enr<K>, EnrError> {
+    if get(step, "empty").as_bool().unwrap_or(false) {
+        return Enr::<K>::empty(signer);
+    }
     let mut b = Enr::<K>::builder();
     apply_builder_calls(&mut b, get(step, "calls"));
     // the same builder may be used again: `rebuild` = build once more after applying `calls2`
@@ -904,6 +907,10 @@ fn now_ms() -> u64 {
 
 impl<W: Write> Exec<W> {
     fn emit(&mut self, v: Value) {
+        // every recorded event re-arms the watchdog (a sweep step records thousands of events)
+        if STEP_STARTED_MS.load(Ordering::SeqCst) != 0 {
+            STEP_STARTED_MS.store(now_ms(), Ordering::SeqCst);
+        }
         serde_json::to_writer(&mut self.out, &v).expect("write");
         self.out.write_all(b"\n").expect("write");
         self.events += 1;
@@ -1087,6 +1094,9 @@ impl<W: Write> Exec<W> {
                 m.insert("r".into(), r);
                 self.emit(Value::Object(m));
             }
+            "encode_list" => self.enclist_event(sid, i, step),
+            "pubkey" => self.pubkey_event(sid, i, step),
+            "keygen" => self.keygen_event(sid, i, step),
             "decode_stream" => self.stream_event(sid, i, step),
             "decode_list" => self.list_event(sid, i, step),
             "nodeid" => self.nodeid_event(sid, i, step),
@@ -1380,6 +1390,135 @@ impl<W: Write> Exec<W> {
             _ => json!([]),
         };
         m.insert("ifacts".into(), f);
+        self.emit(Value::Object(m));
+    }
+
+    /// alloy_rlp::encode of a Vec of records (handles of one key type), and decoding it back
+    fn enclist_event(&mut self, sid: &Value, i: usize, step: &Value) {
+        let hs: Vec<String> = get(step, "hs").as_array().map(|a| a.iter().filter_map(|x| x.as_str().map(|s| s.to_string())).collect()).unwrap_or_default();
+        let mut m = self.base("enclist", sid, i, step);
+        if hs.is_empty() || hs.iter().any(|h| !self.handles.contains_key(h)) {
+            let mut m = self.base("skip", sid, i, step);
+            m.insert("x".into(), json!(0));
+            self.emit(Value::Object(m));
+            return;
+        }
+        let kt = kt_of(self.handles.get(&hs[0]).unwrap());
+        if hs.iter().any(|h| kt_of(self.handles.get(h).unwrap()) != kt) {
+            panic!("encode_list: key types differ");
+        }
+        let mut tab = Tab::new();
+        let mut panics = Vec::new();
+        macro_rules! go {
+            ($variant:ident, $K:ty) => {{
+                let v: Vec<Enr<$K>> = hs.iter().map(|h| match self.handles.get(h).unwrap() { AnyEnr::$variant(e) => e.clone(), _ => unreachable!() }).collect();
+                let encs: Vec<Value> = v.iter().map(|e| bytes_json(&alloy_rlp::encode(e))).collect();
+                let out = guarded("encode_vec", &mut panics, || alloy_rlp::encode(&v)).unwrap_or_default();
+                let back = guarded("decode_vec", &mut panics, || { let mut b: &[u8] = &out; let r = Vec::<Enr<$K>>::decode(&mut b); (r, b.len()) });
+                let (kind, rest, cores, eqs) = match back {
+                    None => ("panic", 0, vec![], false),
+                    Some((Err(_), _)) => ("err", 0, vec![], false),
+                    Some((Ok(r), rest)) => ("ok", rest, r.iter().map(|e| json!(tab.put(core_obs(e)))).collect(), r.len() == v.len() && r.iter().zip(v.iter()).all(|(a, b)| a == b)),
+                };
+                let origs: Vec<Value> = v.iter().map(|e| json!(tab.put(core_obs(e)))).collect();
+                (encs, out, kind, rest, cores, eqs, origs)
+            }};
+        }
+        let (encs, out, kind, rest, cores, eqs, origs) = match kt {
+            "k256" => go!(K256, k256::ecdsa::SigningKey),
+            "libsecp" => go!(Lib, libsecp::SecretKey),
+            "ed" => go!(Ed, ed::SigningKey),
+            "comb" => go!(Comb, CombinedKey),
+            _ => panic!("encode_list: unsupported key type"),
+        };
+        m.insert("kt".into(), json!(kt));
+        m.insert("encs".into(), Value::Array(encs));
+        m.insert("out".into(), bytes_json(&out));
+        m.insert("kind".into(), json!(kind));
+        m.insert("rest".into(), json!(rest));
+        m.insert("cores".into(), Value::Array(cores));
+        m.insert("origs".into(), Value::Array(origs));
+        m.insert("all_eq".into(), json!(eqs));
+        m.insert("tab".into(), Value::Array(tab.0));
+        m.insert("panics".into(), Value::Array(panics));
+        self.emit(Value::Object(m));
+    }
+
+    /// the EnrKey / EnrPublicKey surface of a named test key under one key type
+    fn pubkey_event(&mut self, sid: &Value, i: usize, step: &Value) {
+        let kt = get(step, "kt").as_str().expect("kt").to_string();
+        let signer = get(step, "signer").as_str().expect("signer").to_string();
+        let probe = jbytes(get(step, "probe"));
+        let mut m = self.base("pubkey", sid, i, step);
+        let mut panics = Vec::new();
+        let r = with_kt!(kt.as_str(), K => {
+            use enr::EnrKey;
+            let key = K::named(&signer).expect("signer for key type");
+            let pk = key.public();
+            let enc = guarded("encode", &mut panics, || K::pub_bytes(&pk)).unwrap_or_default();
+            let unc = guarded("encode_uncompressed", &mut panics, || { let u = pk.encode_uncompressed(); let r: &[u8] = u.as_ref(); r.to_vec() }).unwrap_or_default();
+            let name = guarded("enr_key", &mut panics, || pk.enr_key()).unwrap_or_default();
+            let nid = guarded("nodeid_from_pk", &mut panics, || NodeId::from(pk.clone()).raw()).unwrap_or([0; 32]);
+            // sign / verify a probe message through the trait
+            let sig = guarded("sign_v4", &mut panics, || key.sign_v4(&probe).ok()).flatten().unwrap_or_default();
+            let ver = guarded("verify_v4", &mut panics, || pk.verify_v4(&probe, &sig)).unwrap_or(false);
+            let mut other = probe.clone();
+            other.push(1);
+            let ver_other = guarded("verify_v4", &mut panics, || pk.verify_v4(&other, &sig)).unwrap_or(true);
+            json!({"encode": bytes_json(&enc), "uncompressed": bytes_json(&unc), "enr_key": bytes_json(&name), "nid": bytes_json(&nid),
+                   "sig": bytes_json(&sig), "verifies": ver, "verifies_other_msg": ver_other})
+        });
+        keys::take_signs();
+        m.insert("kt".into(), json!(kt));
+        m.insert("signer".into(), json!(signer));
+        m.insert("spk".into(), signer_pub_json(&signer));
+        m.insert("probe".into(), bytes_json(&probe));
+        m.insert("r".into(), r.clone());
+        // independent judgement of the signature the key produced
+        let (sch, pkb) = keys::indep_pub(&signer).expect("signer");
+        let sig = jbytes(&r["sig"]);
+        let sm = if kt == "var" { keys::var_verify(&pkb, &probe, &sig) } else if sch == 'k' { indep::secp_sigmath_libsecp(&pkb, &probe, &sig) } else { indep::ed_sigmath(&pkb, &probe, &sig) };
+        m.insert("sig_math".into(), json!(sm));
+        m.insert("panics".into(), Value::Array(panics));
+        self.emit(Value::Object(m));
+    }
+
+    /// CombinedKey::generate_* : export, public key, re-import
+    fn keygen_event(&mut self, sid: &Value, i: usize, step: &Value) {
+        use enr::EnrKey;
+        let scheme = get(step, "scheme").as_str().expect("scheme");
+        let mut m = self.base("keygen", sid, i, step);
+        let mut panics = Vec::new();
+        let key = if scheme == "secp" { CombinedKey::generate_secp256k1() } else { CombinedKey::generate_ed25519() };
+        let export = guarded("encode", &mut panics, || key.encode()).unwrap_or_default();
+        let public = guarded("public", &mut panics, || key.public().encode()).unwrap_or_default();
+        let pkkey = guarded("enr_key", &mut panics, || key.public().enr_key()).unwrap_or_default();
+        let mut buf = export.clone();
+        let re = guarded("import", &mut panics, || if scheme == "secp" { CombinedKey::secp256k1_from_bytes(&mut buf) } else { CombinedKey::ed25519_from_bytes(&mut buf) });
+        let (re_ok, re_pub) = match re {
+            Some(Ok(k)) => (true, k.public().encode()),
+            _ => (false, vec![]),
+        };
+        let mut indep_pub = json!([]);
+        if export.len() == 32 {
+            let mut a = [0u8; 32];
+            a.copy_from_slice(&export);
+            if scheme == "secp" {
+                if libsecp::SecretKey::from_slice(&a).is_ok() {
+                    indep_pub = json!([bytes_json(&indep::secp_pub(&a))]);
+                }
+            } else {
+                indep_pub = json!([bytes_json(&indep::ed_pub(&a))]);
+            }
+        }
+        m.insert("scheme".into(), json!(scheme));
+        m.insert("export".into(), bytes_json(&export));
+        m.insert("public".into(), bytes_json(&public));
+        m.insert("pkkey".into(), bytes_json(&pkkey));
+        m.insert("reimport_ok".into(), json!(re_ok));
+        m.insert("reimport_public".into(), bytes_json(&re_pub));
+        m.insert("indep_pub".into(), indep_pub);
+        m.insert("panics".into(), Value::Array(panics));
         self.emit(Value::Object(m));
     }
 
